@@ -55,6 +55,10 @@ def lib_tasks(tier):
         progs.append(('OOMCOPY ' + R.encode_message(m).hex(), 'copy'))
     # header edits: every edit of C12's alphabet on a spread of its start messages
     starts = [R.encode_message(m, auto_signature=False).hex() for m in c12.start_messages('quick')]
+    # C12's very long start messages are left out here: libdbus frees a message above its cache size limit instead of
+    # recycling it, so the count of outstanding blocks legitimately DROPS across the operation and the block-count oracle
+    # (which demands equality) cannot be applied to them
+    starts = [st for st in starts if len(st) < 16000]
     ops = c12.edit_alphabet((1, 7, 8, 9, 17, 40))
     for st in starts[::(60 if quick else 12)]:
         for op in ops:
